@@ -151,6 +151,7 @@ def mentions_closure(text, roots):
     return seen
 
 
+WEAKLY_SPECIFIED_METHODS = {'into', 'try_into', 'to_owned', 'to_string', 'as_ref', 'as_mut', 'borrow', 'eq', 'ne', 'cmp', 'partial_cmp', 'max', 'min', 'lt', 'le', 'gt', 'ge'}
 IMPLICIT_CALLS = {'from', 'into', 'try_from', 'try_into', 'clone', 'default', 'fmt', 'eq', 'ne', 'cmp', 'partial_cmp', 'drop', 'deref', 'hash', 'new', 'build'}
 
 
@@ -302,7 +303,10 @@ def annotation_gaps(text, info, names, degraded, lost=()):
             for tok in sorted(ext):
                 ids = re.findall(r'[A-Za-z0-9_]+', tok)
                 nm = ids[-1]
-                outside = (ids[0] not in crate_types) if not tok.startswith('.') else (nm not in real_fns and nm not in base_fns)
+                # (a method with a library specification is usually specified precisely - pop, first, split_off - or not
+                # accepted at all; the calls Verus accepts WITHOUT knowing the result are the trait-dispatched conversions and
+                # comparisons, and associated functions of foreign types reached through such traits: Vec::from, String::from)
+                outside = (ids[0] not in crate_types) if not tok.startswith('.') else (nm in WEAKLY_SPECIFIED_METHODS and nm not in real_fns)
                 if outside and tok not in base_all:
                     reasons.append('calls-external-function-the-reviewed-tree-never-calls:' + tok[:-1])
             for snip, op in exotic_ops(code):
